@@ -1,6 +1,6 @@
 (* C11 — property theorems only (stage-level facts; the composition on the real pipeline is explored by paired runs). *)
 From Coq Require Import List Bool ZArith QArith Permutation Sorted.
-From V Require Import Base.Sort C11.Equivariance.
+From V Require Import Base.Sort C11.Equivariance C09.Model C09.Proofs C11.Beads.
 Import ListNotations.
 
 Theorem canonical_order_independent_of_presentation :
@@ -28,6 +28,19 @@ Theorem bead_positions_move_with_the_structure : forall M t w1 w2 p q,
   let '(x', y', z') := move M t (comb p q) in (x == x' /\ y == y' /\ z == z')%Q.
 Proof. exact weighted_mean_moves_with_motion. Qed.
 Print Assumptions bead_positions_move_with_the_structure.
+
+(* composition of C09 with any distance-reading stage (C15 elastic network, C18 contacts, geometry-derived lengths): for beads
+   of any number of constituents and any weights, moving the atoms rigidly keeps every bead and every bead-bead distance *)
+Theorem bead_distances_survive_rigid_motion : forall M t l1 l2 p1 p2,
+  orthogonal M -> mean l1 = RPos p1 -> mean l2 = RPos p2 ->
+  exists q1 q2, mean (map_pos (aff M t) l1) = RPos q1 /\ mean (map_pos (aff M t) l2) = RPos q2 /\
+                (dist2 q1 q2 == dist2 p1 p2)%Q.
+Proof. exact bead_distances_rigid. Qed.
+Print Assumptions bead_distances_survive_rigid_motion.
+
+Theorem absent_beads_stay_absent : forall M t l, mean l = RNaN -> mean (map_pos (aff M t) l) = RNaN.
+Proof. exact bead_nan_moves. Qed.
+Print Assumptions absent_beads_stay_absent.
 
 (* the sort is determined by the order relation; wherever the code sorts, the result does not depend on arrival order *)
 Example ex_sort : sort Z.leb [3; 1; 2]%Z = sort Z.leb [2; 3; 1]%Z.
